@@ -37,15 +37,21 @@ func nrfMockSetup() {
 		for _, m := range []struct {
 			mode string
 			info map[string]any
-		}{{"oauth", map[string]any{"oauth2": true}}, {"no-oauth", map[string]any{"oauth2": false}}, {"plain", nil}} {
+		}{{"oauth", map[string]any{"oauth2": true}}, {"no-oauth", map[string]any{"oauth2": false}}, {"plain", nil}, {"oauth-200", map[string]any{"oauth2": true}}} {
 			mode := m.mode
 			prof := map[string]any{"nfInstanceId": "11111111-2222-3333-4444-555555555555", "nfType": "CHF", "nfStatus": "REGISTERED"}
 			if m.info != nil {
 				prof["customInfo"] = m.info
 			}
-			gock.New("http://127.0.0.10:8000").Put("/nnrf-nfm/v1/nf-instances/(.*)").Persist().
-				AddMatcher(func(*http.Request, *gock.Request) (bool, error) { return nrfMode == mode, nil }).
-				Reply(201).SetHeader("Location", "http://127.0.0.10:8000/nnrf-nfm/v1/nf-instances/11111111-2222-3333-4444-555555555555").JSON(prof)
+			mk := gock.New("http://127.0.0.10:8000").Put("/nnrf-nfm/v1/nf-instances/(.*)").Persist().
+				AddMatcher(func(*http.Request, *gock.Request) (bool, error) { return nrfMode == mode, nil })
+			if mode == "oauth-200" {
+				// the NRF already knows the instance (the answer to an earlier registration was lost, or the CHF restarted):
+				// 200 OK, no Location, the same profile with the same declaration
+				mk.Reply(200).JSON(prof)
+				continue
+			}
+			mk.Reply(201).SetHeader("Location", "http://127.0.0.10:8000/nnrf-nfm/v1/nf-instances/11111111-2222-3333-4444-555555555555").JSON(prof)
 		}
 	})
 }
@@ -99,7 +105,7 @@ func c13RegJob(t *testing.T, raw json.RawMessage) (any, error) {
 			}
 			vs.Quiesce()
 			out.Required = chf_context.GetSelf().OAuth2Required
-			if a.Mode != "oauth" {
+			if !strings.HasPrefix(a.Mode, "oauth") {
 				return // (nothing is demanded when the NRF did not ask for OAuth2)
 			}
 			body := Op{K: "update", MUs: []MU{{RG: 1, Req: 100, Conts: []Cont{{Vol: 40, Seq: 2}}}}, Trig: []string{"VOLIMM"}}
@@ -129,7 +135,7 @@ func c13RegJob(t *testing.T, raw json.RawMessage) (any, error) {
 					vs.Quiesce()
 					post := w.Snapshot(false)
 					out.Probes++
-					what := fmt.Sprintf("after a registration answered with customInfo.oauth2=true, NRF certificate %s: %s %s with token %q", a.Cert, rt.Method, rt.Path, tk.name)
+					what := fmt.Sprintf("after a registration answered (%s) with customInfo.oauth2=true, NRF certificate %s: %s %s with token %q", map[bool]string{true: "200 OK, instance already known to the NRF", false: "201 Created"}[a.Mode == "oauth-200"], a.Cert, rt.Method, rt.Path, tk.name)
 					if r.Code != 401 {
 						out.Finds = append(out.Finds, Finding{"registration/not-401/certificate-" + a.Cert, what + fmt.Sprintf(" answered %d %s", r.Code, oneLine(r.Body, 80))})
 					}
@@ -169,7 +175,7 @@ func c13Registration(rep *Report, pool *Pool) (cov []map[string]any, probes int,
 	exhaustive = true
 	var jobs []Job
 	var args []c13RegArgs
-	for _, mode := range []string{"oauth", "no-oauth", "plain"} {
+	for _, mode := range []string{"oauth", "oauth-200", "no-oauth", "plain"} {
 		for _, cert := range []string{"usable", "unset", "missing", "garbage"} {
 			a := c13RegArgs{Mode: mode, Cert: cert}
 			args = append(args, a)
@@ -186,7 +192,7 @@ func c13Registration(rep *Report, pool *Pool) (cov []map[string]any, probes int,
 		json.Unmarshal(r.Out, &o)
 		probes += o.Probes
 		cov = append(cov, map[string]any{"nrf_answer": args[i].Mode, "nrf_certificate": args[i].Cert, "oauth2_required_afterwards": o.Required, "probes": o.Probes})
-		if args[i].Mode == "oauth" && o.Probes == 0 {
+		if strings.HasPrefix(args[i].Mode, "oauth") && o.Probes == 0 {
 			rep.EngineError("c13reg: no route probed for " + string(jobs[i].Args))
 			exhaustive = false
 		}
